@@ -254,7 +254,7 @@ func checkC19(P *Prog, r *Result) {
 		}
 	}
 	isRole := func(f *types.Var) bool {
-		return f != nil && (f.Name() == "defaultVal" || f.Name() == "catch" || sameField(f, R.FCanCatch))
+		return f != nil && (P.roleName(f) == "defaultVal" || P.roleName(f) == "catch" || sameField(f, R.FCanCatch))
 	}
 	for _, fn := range vfns {
 		all := []*ssa.Function{fn}
